@@ -107,11 +107,22 @@ func emitLine(r *lib.Rand, c combo, T uint16, odd bool, maxPayload int) (string,
 		s4, d4 := randAddr(r, "4")
 		f := ip4F{tos: uint64(r.Intn(256)), id: 0, ff: uint64(r.Intn(65536)), ttl: uint64(r.Intn(256)), proto: uint64(r.Intn(256)), src: s4, dst: d4, opt: randOpt(r, 1)}
 		pl := randPayload(r, odd, maxPayload)
+		// a header that keeps non-zero bytes in its option alignment area (IPv4.Padding of a decoded header)
+		hdrOpts := f.opt.length()
+		if r.Chance(40) {
+			pad := r.Bytes(1 + r.Intn(4))
+			if n := (f.opt.rawLen() + len(pad) + 3) / 4 * 4; n <= 40 {
+				f.pad, hdrOpts = pad, n
+			}
+		}
 		if b, err := buildIp4(f, pl, false); err == nil {
 			hl := int(b[0]&0xf) * 4
 			if w, ok := solveWord(refWordSum(b[:hl]), T); ok {
 				f.id = uint64(w)
 			}
+		}
+		if f.pad != nil {
+			return fmt.Sprintf("cksum emit ip4p - %s %s %d %d %d %d %d %s %s %s", lib.Hex(s4), lib.Hex(d4), f.tos, f.id, f.ff, f.ttl, f.proto, optStr(f.opt), lib.Hex(f.pad), lib.Hex(pl)), 20 + hdrOpts + len(pl)
 		}
 		return fmt.Sprintf("cksum emit ip4 - %s %s %d %d %d %d %d %s %s", lib.Hex(s4), lib.Hex(d4), f.tos, f.id, f.ff, f.ttl, f.proto, optStr(f.opt), lib.Hex(pl)), 20 + f.opt.length() + len(pl)
 	case "tcp":
